@@ -394,6 +394,38 @@ func c06Run(w *W) {
 			}
 		}
 	}
+	// the derivation generator's lists of leaf commands and default-filled compound commands, and every single-symbol
+	// deletion of them (mostly ill-formed: an error at each possible place), with ≤ 1 preemption
+	seenD := map[string]bool{}
+	derivations(false, func(name string, texts []string) {
+		if name != "D0" && !(name == "D1" && len(texts) <= 12) {
+			return
+		}
+		key := strings.Join(texts, "\x00")
+		if seenD[key] || !w.Mine() || w.TimeUp() {
+			seenD[key] = true
+			return
+		}
+		seenD[key] = true
+		base := syms(append(append([]string{}, texts...), "\n")...)
+		for del := -1; del < len(base)-1; del++ {
+			ss := base
+			if del >= 0 {
+				if !w.thorough() && del%2 == 1 {
+					continue // quick tier: every other deletion
+				}
+				ss = append(append([]sym{}, base[:del]...), base[del+1:]...)
+			}
+			if lexicallyEntangled(ss) {
+				continue
+			}
+			src := render(ss).src
+			w.Announce("parse " + src)
+			sum := c06Explore(c06ParseBody(src, nil), 1, maxExec)
+			w.Count("generator_sentences", 1)
+			account("ParseCommands", src, sum)
+		}
+	})
 	// interp: every token string ≤ ne, all schedules (both outcomes of every ambiguous select)
 	tok := []string{"1", "08", "x", "y", "=", "+", "/", "0", "++", "(", ")", "@"}
 	cur = cur[:0]
@@ -675,7 +707,7 @@ func init() {
 		id:    "C06",
 		level: "model_checking",
 		rule: "stateless DFS over ALL interleavings of the hooked operations (token hand-off incl. both outcomes of an ambiguous select, cancel, here-document queue, nested lexer join, error slots, return) for every ParseCommands input of ≤ 3 (quick) / 4 (thorough) pieces over {a | ; ( ) $( $(a) ` ' ${ <<E newline #c if 3<<U(unterminated numbered here-document)}, " +
-			"15 longer inputs with preemption bound ≤ 2, every input of ≤ 2 (thorough 3) pieces additionally with the reader failing from / once at every rune index (all schedules: the call must return), and every Eval input of ≤ 4 / 5 tokens over {1 08 x y = + / 0 ++ ( ) @}; non-trivial = inputs with more than one schedule; plus a supplementary free-running pass (GOMAXPROCS 1, 2, 16) whose results must be among the explored ones, and the same bodies under the race detector",
+			"15 longer inputs with preemption bound ≤ 2, the generator's lists of leaf commands and default-filled compound commands with each single-symbol deletion (preemption bound ≤ 1), every input of ≤ 2 (thorough 3) pieces additionally with the reader failing from / once at every rune index (all schedules: the call must return), and every Eval input of ≤ 4 / 5 tokens over {1 08 x y = + / 0 ++ ( ) @}; non-trivial = inputs with more than one schedule; plus a supplementary free-running pass (GOMAXPROCS 1, 2, 16) whose results must be among the explored ones, and the same bodies under the race detector",
 		assume: []string{"the controller owns every synchronisation operation between the goroutines (hooks, build tag verif); mutexes are never contended because no point lies inside a critical section",
 			"unhooked unsynchronised accesses and memory-model effects are only looked at by the supplementary -race pass; silence there is not evidence of absence",
 			"executions are capped per input (quick 20 000, thorough 200 000); a capped input makes the run non-exhaustive"},
